@@ -193,8 +193,8 @@ func run(rc *runConfig) int {
 		if fs.Trusted {
 			continue
 		}
-		x := newExec(prog, fn, fs)
-		if err := x.verify(); err != nil {
+		x, err := verifyWithInference(prog, fn, fs, rc)
+		if err != nil {
 			fmt.Printf("UNDECIDED property=%s %v\n", rc.prop, err)
 			undecided++
 			// what was generated before the contract error is still valid and is still reported
